@@ -51,8 +51,10 @@ META = dict(
         "splitted_copy equality or names the measure n.s.i.); frequency "
         "histograms (nsi_degree_histogram), nsi_laplacian and the "
         "experimental nsi_spreading are out of scope by their own docs",
-        "path based measures and the eigenvector centrality only on "
-        "connected undirected graphs; nsi_betweenness only undirected"],
+        "shortest-path based measures and the eigenvector centrality only "
+        "on connected undirected graphs (random-walk betweennesses are "
+        "defined per component and run on all undirected graphs); "
+        "nsi_betweenness only undirected"],
 )
 
 # (label, method, kwargs, kind, needs)   kind: g(lobal) n(ode) p(air)
@@ -90,11 +92,11 @@ NET = [
     ("nsi_global_efficiency", {}, "g", C),
     ("nsi_betweenness", {}, "n", U),
     ("nsi_eigenvector_centrality", {}, "n", C),
-    ("nsi_arenas_betweenness", {}, "n", C),
-    ("nsi_arenas_betweenness", {"exclude_neighbors": False}, "n", C),
-    ("nsi_arenas_betweenness", {"stopping_mode": "twinness"}, "n", C),
-    ("nsi_newman_betweenness", {}, "n", C),
-    ("nsi_newman_betweenness", {"add_local_ends": True}, "n", C),
+    ("nsi_arenas_betweenness", {}, "n", U),
+    ("nsi_arenas_betweenness", {"exclude_neighbors": False}, "n", U),
+    ("nsi_arenas_betweenness", {"stopping_mode": "twinness"}, "n", U),
+    ("nsi_newman_betweenness", {}, "n", U),
+    ("nsi_newman_betweenness", {"add_local_ends": True}, "n", U),
 ]
 # (method, kind, arity)  kind g / n1 (per node of list 1)
 INTER = [
